@@ -58,8 +58,9 @@ def evalCase (lines : List String) : String × Bool × Bool :=
       let st := replay caseLines link leak fin false
       if st.bad.isNone then some (name ++ "-writer", st) else firstOk rest
   let variants : List (String × Cfg × Bool × Bool) :=
-    [("fixed:all", Cfg.fixed, true, true), ("faithful", Cfg.faithful, false, false), ("fixed:rand", Cfg.fixed, false, false),
-     ("fixed:leak+fin", Cfg.faithful, true, true), ("fixed:rand+leak", Cfg.fixed, true, false), ("fixed:rand+fin", Cfg.fixed, false, true),
+    [("fixed:all", Cfg.fixed, true, true), ("fixed:rand+leak+fin", Cfg.fixedRand, true, true),  -- second: the tree before the repair of F-C08-1 / F-C03-2
+     ("faithful", Cfg.faithful, false, false), ("fixed:rand", Cfg.fixedRand, false, false),
+     ("fixed:leak+fin", Cfg.faithful, true, true), ("fixed:rand+leak", Cfg.fixedRand, true, false), ("fixed:rand+fin", Cfg.fixedRand, false, true),
      ("fixed:leak", Cfg.faithful, true, false), ("fixed:fin", Cfg.faithful, false, true)]
   let (kOk, vname, cov, kline, kdetail) :=
     if !modelled || randomOrder then (true, "-", ([] : List String), 0, "") else
